@@ -68,6 +68,18 @@ CLAIMED = {
         note="schedules of the real code are sampled (PCT depth 3), not exhausted; messages still queued for dispatch when the "
              "link drops are treated as in flight at link loss",
         design="5/C06"),
+    "C07": dict(
+        technique="nondeterministic TLA+ monitor E30CommMon/E30Comm checked by TLC; its transition relation replayed on real "
+                  "GemHostHandler/GemEquipmentHandler in virtual time; every recorded step validated by TLC (E30CommJudge, subset "
+                  "construction)",
+        text="The E30 establish-communications model is a TLA+ monitor (EstablishedOnlyAfterExchange, RetryAfterDelay, "
+             "NoCallbackUnlessCommunicating checked by TLC on all histories). One shortest history per monitor edge and random "
+             "walks of 35 inputs (enable/disable, link up/lost, S1F13, S1F14 with COMMACK 0/1, other messages, timer expiries at "
+             "exact virtual deadlines) run on real host and equipment handlers in both HSMS modes; TLC validates frames, COMMACK, "
+             "events, callback invocations, timer spacing and state of every step.",
+        note="timer expiry order is the virtual-time order (no racing of T3 against an arriving S1F14 at the same instant); "
+             "stale S1F14 (non-matching system bytes) is accepted by the monitor as an exchange on the current link",
+        design="5/C07"),
 }
 
 NOT_YET = "check not built yet in this round (specification and harness in progress; see DESIGN.md section 9)"
